@@ -120,46 +120,36 @@ def _phi_defs(fn, ex, op, at, depth=0):
 
 
 def flag_rules(ctx, facts, rep, rule="C02-FLAGS"):
-    """general purpose flags: bit 11 iff the name is not ASCII, bit 0 iff encrypted, nothing else, OR-ed together"""
+    """general purpose flags: bit 11 iff the name is not ASCII, bit 0 iff encrypted, nothing else.  Decided as a truth table: on
+    every path the flag word handed to the header's flags field is a constant (folded along the path) and equals the value the two
+    atoms taken on that path call for -- however the word is assembled (if-expression OR, accumulator, helper function)."""
+    from engine.paths import paths as _paths
     spec = ctx.spec("appnote.json")["flags"]
     ok = True
+    A_ASCII, A_ENC = r"is_ascii\(.*file_name", r"(^|\.)encrypted$"
     for pat, idx in ((r"^write::write_local_file_header$", 2), (r"^write::write_central_directory_header$", 3)):
         f = facts.one(pat)
-        ex = Ex(f)
-        w16 = [(bi, t) for bi, t in f.calls() if callee_matches(t, r"WriteBytesExt::write_u16$")]
-        # order of write_u16 calls by dominance: pick the flags write = the (idx)th write_uN on the main path; simpler: the
-        # write whose value is a BitOr / phi of small constants
-        cand = None
-        for bi, t in w16:
-            e = norm(ex.operand(t["args"][1], (bi, None)))
-            consts = {x[2] for x in walk(e) if x[0] == "const" and isinstance(x[2], int)}
-            if any(x[0] == "bin" and x[1] in ("BitOr", "Shl") for x in walk(e)) and not [x for x in walk(e) if x[0] in ("field", "call")]:
-                cand = (bi, t, e)
-                break
-            if e[0] == "call" and facts.local_targets(t) == [] and False:
-                pass
         key = "flags[%s]" % f.path.split("::")[-1]
-        if cand is None:
-            # flags computed by a helper function: analyse the helper's return instead
-            for bi, t in w16:
-                e = norm(ex.operand(t["args"][1], (bi, None)))
-                if e[0] == "call" and e[1] in facts.by_path and facts.sigs.get(e[1], {}).get("output") == "u16" and "version_needed" not in e[1] \
-                        and "to_u16" not in e[1] and "part" not in e[1]:
-                    h = facts.by_path[e[1]]
-                    cand = ("helper", h)
-                    break
-        if cand is None:
-            raise AnchorLost("general purpose flag write in %s" % f.path)
-        if cand[0] == "helper":
-            h = cand[1]
-            exh = Ex(h)
-            rets = [(h, exh, b) for b in h.exits()]
-            good, why = _flag_value_ok(h, exh, {"k": "copy", "place": {"l": 0, "p": [], "ty": "u16"}}, (h.exits()[0], None), spec)
-            ok &= rep.check(good, rule, key, where(h, h.span), "flag helper: bit 11 iff !is_ascii(name), bit 0 iff encrypted, OR-ed", why)
-            continue
-        bi, t, e = cand
-        good, why = _flag_value_ok(f, ex, t["args"][1], (bi, None), spec)
-        ok &= rep.check(good, rule, key, where(f, t["span"]), "bit 11 iff !is_ascii(name), bit 0 iff encrypted, OR-ed, no other bit", why)
+        rows = {}
+        bad = []
+        for p in _paths(f):
+            ws = [(e_, c_) for e_, c_ in zip(p["effects"], p["econst"]) if re.search(r"WriteBytesExt::write_u(8|16|32|64)$", e_[1])]
+            if len(ws) <= idx:
+                continue        # an earlier write failed
+            e_, c_ = ws[idx]
+            val = c_[1] if len(c_) > 1 else None
+            asc = [v for a, v in p["decisions"] if a != "#iter" and re.search(A_ASCII, a)]
+            enc = [v for a, v in p["decisions"] if a != "#iter" and re.search(A_ENC, a)]
+            if not e_[1].endswith("write_u16") or val is None or len(set(asc)) != 1 or len(set(enc)) != 1:
+                bad.append("flags field written as %s under ascii=%s encrypted=%s" % (show(e_[2][1])[:60] if len(e_[2]) > 1 else "?", asc, enc))
+                continue
+            want = (0 if asc[0] == 1 else (1 << spec["utf8"])) | ((1 << spec["encrypted"]) if enc[0] == 1 else 0)
+            rows[(asc[0], enc[0])] = rows.get((asc[0], enc[0]), True) and (val == want)
+            if val != want:
+                bad.append("ascii=%s encrypted=%s => %#x (APPNOTE: %#x)" % (asc[0], enc[0], val, want))
+        good = not bad and len(rows) == 4 and all(rows.values())
+        ok &= rep.check(good, rule, key, where(f, f.span), "flags = (bit 11 iff !is_ascii(name)) | (bit 0 iff encrypted), all four combinations, no other bit",
+                        "general purpose flag word: %s" % ("; ".join(sorted(set(bad))[:4]) or "only %d of the 4 (ascii, encrypted) combinations are distinguished" % len(rows)))
     return ok
 
 
